@@ -147,7 +147,7 @@ def mutations(rng, b, delims, n_random, every_truncation, text):
     else: out += [('truncation', b[:rng.range(0, len(b))]) for _ in range(8)]
     dpos = [i for i, c in enumerate(b) if c in delims]
     for _ in range(n_random):
-        k = rng.below(12)
+        k = rng.below(13)
         p = rng.range(0, max(0, len(b) - 1))
         if k == 0 and b: out.append(('bit flip', b[:p] + bytes([b[p] ^ (1 << rng.below(8))]) + b[p + 1:]))
         elif k == 1: out.append(('non-ASCII', b[:p] + rng.choice(NONASCII).encode() + b[p:]))
@@ -164,6 +164,9 @@ def mutations(rng, b, delims, n_random, every_truncation, text):
         elif k == 9 and b: out.append(('byte replaced', b[:p] + bytes([rng.below(256)]) + b[p + 1:]))
         elif k == 10 and len(b) > 1:
             q = rng.range(0, len(b) - 1); lo, hi = min(p, q), max(p, q); out.append(('swapped pieces', b[:lo] + b[hi:] + b[lo:hi]))
+        elif k == 11:
+            from vlib import vocab as VOC
+            out.append(('token of the source vocabulary respelled', VOC.respell(rng, b)))
         else: out.append(('random bytes inserted', b[:p] + rng.bytes(rng.range(1, 4)) + b[p:]))
     return out
 
